@@ -5,6 +5,7 @@ import (
 	"go/ast"
 	"path/filepath"
 	"reflect"
+	"sort"
 	"strconv"
 	"strings"
 )
@@ -12,6 +13,75 @@ import (
 // moreAnchors: anchors of the web, config, kdcproxy, ntlm and rdp packages.
 func moreAnchors() {
 	rdpAnchors()
+	configAnchors()
+}
+
+// configAnchors: the key-length tests, the fatal checks and the default map of config.Load.
+func configAnchors() {
+	const cfg = "cmd/rdpgw/config/configuration.go"
+	ld := findFunc(cfg, "Load")
+	// every `len(Conf.X.Key) != N` test
+	var lens []string
+	var keys []string
+	ast.Inspect(ld.Body, func(n ast.Node) bool {
+		if b, ok := n.(*ast.BinaryExpr); ok && b.Op.String() == "!=" {
+			l := exprString(b.X)
+			if strings.HasPrefix(l, "len(Conf.") {
+				if v, ok := eval(b.Y, env{}, 0); ok {
+					lens = append(lens, v.ExactString())
+					keys = append(keys, strings.TrimSuffix(strings.TrimPrefix(l, "len(Conf."), ")"))
+				}
+			}
+		}
+		return true
+	})
+	if len(lens) == 0 {
+		die("config.Load: len(Conf.<key>) != N tests")
+	}
+	for _, l := range lens {
+		if l != lens[0] {
+			die("config.Load: key length tests disagree: %v", lens)
+		}
+	}
+	emitN("CONFIG_KEY_LEN", lens[0])
+	emitSL("CONFIG_SUBSTITUTED_KEYS", keys)
+	// the conditions guarding log.Fatalf
+	var fatals []string
+	ast.Inspect(ld.Body, func(n ast.Node) bool {
+		if is, ok := n.(*ast.IfStmt); ok {
+			for _, st := range is.Body.List {
+				if es, ok := st.(*ast.ExprStmt); ok {
+					if c, ok := es.X.(*ast.CallExpr); ok && exprString(c.Fun) == "log.Fatalf" {
+						cond := exprString(is.Cond)
+						if !strings.Contains(cond, "err") {
+							fatals = append(fatals, cond)
+						}
+					}
+				}
+			}
+		}
+		return true
+	})
+	emitSL("CONFIG_FATAL_CONDITIONS", fatals)
+	// defaults
+	var defs []string
+	ast.Inspect(ld.Body, func(n ast.Node) bool {
+		if cl, ok := n.(*ast.CompositeLit); ok && exprString(cl.Type) == "map[string]interface{}" {
+			for _, e := range cl.Elts {
+				if kv, ok := e.(*ast.KeyValueExpr); ok {
+					defs = append(defs, strings.Trim(exprString(kv.Key), "\"")+"="+strings.Trim(exprString(kv.Value), "\""))
+				}
+			}
+		}
+		return true
+	})
+	sort.Strings(defs)
+	emitSL("CONFIG_DEFAULTS", defs)
+	nh := findFunc("cmd/rdpgw/web/web.go", "NewHandler")
+	c := cmpLits(nh, "len(c.Hosts)")
+	emitS("NEWHANDLER_HOSTS_TEST", one(c, "NewHandler: len(c.Hosts) < N"))
+	is := findFunc("cmd/rdpgw/web/session.go", "InitStore")
+	emitSL("INITSTORE_KEY_TESTS", append(cmpLits(is, "len(sessionKey)"), cmpLits(is, "len(encryptionKey)")...))
 }
 
 // rdpAnchors regenerates the settings table from the struct tags of RdpSettings
